@@ -48,6 +48,13 @@ func vrtEnd(c *vrtConn, how int) bool {
 			vrtQuiesce()
 		}
 		return true
+	case 5:
+		// DISCONNECT and the TCP close arrive together: the DISCONNECT is still in the
+		// input ring when the receiver sees end-of-stream
+		c.peerSend(specEncode(&specPkt{Typ: specDISCONNECT}))
+		c.peerClose()
+		vrtQuiesce()
+		return true
 	case 1:
 		c.peerClose() // network drop
 	case 2:
@@ -96,7 +103,7 @@ func H09_will() {
 		vrtAssert("C09.harness_pingresp", vrtBytesEq(pong, []byte{0xD0, 0}))
 	}
 	vrtAssert("C09.nothing_before_end", len(wit.peerTake()) == 0)
-	how := vrtChoice("end", 5)
+	how := vrtChoice("end", 6)
 	disc := vrtEnd(c, how)
 	vrtAssert("C09.connection_closed", c.isClosed())
 	vrtCheckWill("", wit, w, w.flag && !disc)
